@@ -73,6 +73,10 @@ func (in *dockerIn) query() string {
 		return "count_over_time(" + sel + rng + ")"
 	case "sumcount":
 		return "sum by (container) (count_over_time(" + sel + rng + "))"
+	case "logkv":
+		// lines whose keys differ only in characters that label names cannot carry (a.b, a_b): what each entry's labels
+		// are must not depend on the order a map is walked in
+		return sel + " | logfmt"
 	case "maxnan":
 		// a group mixing NaN with numbers: the extreme of such a group does not depend on the order the series arrive in
 		return "max(max_over_time(" + sel + " | logfmt | unwrap v " + rng + ")) or min(min_over_time(" + sel + " | logfmt | unwrap v " + rng + "))"
@@ -459,7 +463,10 @@ func genLifecycle(r *rand.Rand) dockerIn {
 	if in.Shape == "binop" {
 		rounds = 2
 	}
-	switch r.Intn(6) {
+	switch r.Intn(7) {
+	case 6:
+		// a reader whose Close reports an error (it is closed all the same): every other reader must still be closed
+		in.Faults = append(in.Faults, Fault{Kind: "closeerr", Ctr: 1 + r.Intn(nc), Round: r.Intn(rounds + 1)})
 	case 0:
 		in.ListErr = true
 	case 1:
@@ -515,7 +522,7 @@ func allPerms(n int) [][]int {
 
 func genDeterminism(r *rand.Rand) dockerIn {
 	in := baseIn()
-	in.Shape = []string{"log", "count", "sumcount", "log", "sumdep", "maxnan"}[r.Intn(6)]
+	in.Shape = []string{"log", "count", "sumcount", "log", "sumdep", "maxnan", "logkv"}[r.Intn(7)]
 	in.Start, in.End, in.Step, in.Range = []int{1700000000, 0}, []int{1700000060, 0}, 20, 600
 	nc := 2 + r.Intn(4)
 	sec := 1700000001
@@ -534,7 +541,14 @@ func genDeterminism(r *rand.Rand) dockerIn {
 		}
 		in.Ctrs = append(in.Ctrs, ctr)
 	}
-	if in.Shape == "maxnan" {
+	if in.Shape == "logkv" {
+		for c := range in.Ctrs {
+			for j := range in.Ctrs[c].Frames {
+				in.Ctrs[c].Frames[j].Msg = B(fmt.Sprintf("a.b=%d a_b=%d a-b=%d k=%d", j, j+1, j+2, c))
+			}
+		}
+		in.Reps = 4
+	} else if in.Shape == "maxnan" {
 		for c := range in.Ctrs {
 			v := []string{"NaN", "0.5", "2", "NaN", "-1"}[(c+r.Intn(2))%5]
 			for j := range in.Ctrs[c].Frames {
